@@ -176,7 +176,32 @@ func VerifC01_KMinMax() {
 	names := []string{"a", "b", "c"}[:n]
 	ops := make([]c01Num, n)
 	for i, nm := range names {
-		ops[i] = c01Operand(env, nm, false)
+		if n < 3 {
+			ops[i] = c01Operand(env, nm, false)
+		}
+	}
+	if n == 3 {
+		// three operands: two ints on either side of a float they TIE with after promotion (beyond 2^53
+		// the language's mixed order is not transitive).  The float is 2^60, the ints 2^60 + d with d
+		// symbolic in [0, 127] (all of them convert to 2^60), the float's position chosen by the solver.
+		d1, d2 := vndInt("d1"), vndInt("d2")
+		vAssume(d1 >= 0)
+		vAssume(d1 <= 127)
+		vAssume(d2 >= 0)
+		vAssume(d2 <= 127)
+		pos := vConcInt(vndChoice("floatpos", 3))
+		ints := []int{1<<60 + d1, 1<<60 + d2}
+		k := 0
+		for i, nm := range names {
+			if i == pos {
+				ops[i] = c01Num{kind: 1, f: float64(1 << 60)}
+				env.PutGlobal(lisp.Symbol(nm), lisp.Float(float64(1<<60)))
+			} else {
+				ops[i] = c01Num{kind: 0, i: ints[k]}
+				env.PutGlobal(lisp.Symbol(nm), lisp.Int(ints[k]))
+				k++
+			}
+		}
 	}
 	op := "min"
 	if isMax {
